@@ -77,6 +77,10 @@ claim("C14", "static analysis: well-formedness rules over the struct tags of eve
       "Decides: every exported field of the profile schema has a yaotl tag of a kind gohcl accepts (others panic at load), names are unique per struct, block/label/attribute fields have decodable types; every dereference of a pointer-typed profile block anywhere in the module is dominated by a nil test of the same path, or the block is replaced by an empty struct in SetProfile when omitted; in the functions of hclsimple/gohcl/hclsyntax/profile reachable from DecodeFile no error or hcl.Diagnostics result is bound to _ or dropped (three upstream idioms listed with their reason). Not decided: the decode round trip over the value space, diagnostics' text and ranges, heredoc/template spelling equivalences.",
       TRUST, "DESIGN.md §3 R17/R18, §4 C14")
 
+claim("C18", "static analysis: comparison of the resolved operator tables (token constant -> operation -> implementing stdlib function and result type, by precedence level) with a reference table from the language definition; SSA value-provenance rules on the precedence-climbing parser (operand levels, lookup, node construction, conditional) and on the Value methods of binary/unary/conditional nodes",
+      "Decides the structural part of 'usual precedence and associativity' and of operator evaluation: the binary operator table has the six levels of the language in order with the defined operators on each, each Operation is bound to the stdlib function and result type that define it and is never rewritten, unary - and ! build the defined operation over a term; parseBinaryOps looks the next token up in the first level only, parses both operands with the strict tail of its table, gives each node the looked-up operation, the accumulated left operand and a right operand parsed after the operator; the conditional parses condition/true/false in source order behind ? and :; BinaryOpExpr/UnaryOpExpr.Value apply the node's own Impl to the operands' values in order; ConditionalExpr.Value returns the true result on the True() branch of the condition and the false result on the other. Not decided: the arithmetic itself (go-cty), templates, splats, for-expressions, index/attribute semantics, and the error-diagnostic clause - these quantify over values and have no structural necessary condition we can check soundly.",
+      TRUST, "DESIGN.md §3 R19, §4 C18")
+
 for i in range(1, 21):
     pid = "C%02d" % i
     if pid not in CLAIMS and pid not in NA:
